@@ -761,7 +761,7 @@ func verifyOneSigWithWork(
 			}
 			candidateUsed++
 			*rrsetUsed++
-			lastErr = err
+			lastErr = bogusSignature(err)
 			continue
 		}
 		*rrsetUsed++
@@ -822,6 +822,17 @@ func signatureMatchesRRset(sig *dns.RRSIG, set []dns.RR) bool {
 		dns.CountLabel(header.Name) >= int(sig.Labels) &&
 		strings.EqualFold(header.Name, sig.Header().Name) &&
 		dnsutil.NameInZone(strings.ToLower(dns.Fqdn(header.Name)), signer)
+}
+
+// bogusSignature types a cryptographic verification failure. The library's
+// errors (dns.ErrSig, dns.ErrRdata, ...) carry no Extended DNS Error code, so
+// the SERVFAIL built from them said "Other" (0) and consumers that recognise a
+// validation failure by its code (DNS64) took it for a plain SERVFAIL.
+func bogusSignature(err error) error {
+	if _, typed := err.(interface{ EDECode() uint16 }); typed || err == nil {
+		return err
+	}
+	return &dnsutil.EDEError{Code: dns.ExtendedErrorCodeDNSBogus, Message: "RRSIG does not verify", Err: err}
 }
 
 func beginSignature(work SignatureWork) (func(), error) {
